@@ -71,6 +71,8 @@ func nativeFuzzPhase(name, target, oracle string, execs int) *fw.Phase {
 				}
 				mod.WriteString(l + "\n")
 			}
+			// the targets share the entry decoder and archive writer with the harness
+			mod.WriteString("require verif/harness v0.0.0\nreplace verif/harness => " + harness + "\n")
 			os.MkdirAll(filepath.Join(dir, "tmp"), 0755)
 			os.WriteFile(filepath.Join(dir, "fuzz_test.go"), src, 0644)
 			os.WriteFile(filepath.Join(dir, "go.mod"), mod.Bytes(), 0644)
